@@ -24,7 +24,7 @@ func UserTypeNamesFromTypeConstraint(node ischema.Node) []string {
 	}
 
 	name := typ.Bytes().Unquote().String()
-	if name[0] == '@' {
+	if name != "" && name[0] == '@' {
 		return []string{name}
 	}
 
